@@ -44,6 +44,9 @@ type StreamTaskConfigResp struct {
 }
 
 func (h *Handler) serveCreateStreamTask(w http.ResponseWriter, r *http.Request, user meta2.User) {
+	if !h.requireAdmin(w, user, "create stream task") {
+		return
+	}
 	logStream := mux.Vars(r)[LogStream]
 	repository := mux.Vars(r)[Repository]
 	if err := ValidateRepoAndLogStream(repository, logStream); err != nil {
@@ -221,6 +224,9 @@ func (h *Handler) parsePplAndSqlQuery(ppl string, info *measurementInfo) (*influ
 }
 
 func (h *Handler) serveDeleteStreamTask(w http.ResponseWriter, r *http.Request, user meta2.User) {
+	if !h.requireAdmin(w, user, "delete stream task") {
+		return
+	}
 	logStream := mux.Vars(r)[LogStream]
 	repository := mux.Vars(r)[Repository]
 	if err := ValidateRepoAndLogStream(repository, logStream); err != nil {
